@@ -148,6 +148,17 @@ def generate(repo, outdir):
             mjd_offset = _const(n.value.right)
     if mjd_offset is None:
         raise Unrecognised('MJD offset `mjd = mjd - 50000` not found')
+    # only tables with the expected fields are compared number by number; anything else is a shape this translator cannot read
+    expect = {'obj_sh': ['skyversion', 'rerun', 'run', 'camcol', 'firstfield', 'field', 'objnum'],
+              'obj_rg': ['firstfield', 'skyversion', 'rerun', 'run', 'camcol', 'field', 'objnum'],
+              'spec_sh': ['plate', 'fiber', 'mjd', 'run2d', 'line', 'index'],
+              'spec_rg': ['plate', 'fiber', 'mjd', 'run2d', 'line', 'index'],
+              'uo': ['skyversion', 'rerun', 'run', 'camcol', 'firstfield', 'frame', 'id'],
+              'us': ['plate', 'fiber', 'mjd', 'run2d', 'line']}
+    got = {'obj_sh': obj_sh, 'obj_rg': obj_rg, 'spec_sh': spec_sh, 'spec_rg': spec_rg, 'uo': uo, 'us': us}
+    for k, names in expect.items():
+        if [r[0] for r in got[k]] != names:
+            raise Unrecognised('%s: fields %s instead of %s' % (k, [r[0] for r in got[k]], names))
     src = '''/- GENERATED on every run by harness/xlate/c06_consts.py from the current pydl source. Do not edit. -/
 import PydlVerif.Model.Ids
 namespace PydlVerif.Gen.C06
